@@ -293,12 +293,57 @@ func round(wl workload) observation {
 
 var printOnce sync.Once
 
+// judge compares what one round observed with the expectation. where names the round. Shared by
+// the drawn workloads, the pair sweep and (later) the enumerated schedules.
+func judge(t world.TB, wl workload, x expectation, obs observation, where string) {
+	want := x.final.lines()
+	fail := func(sig, msg string) {
+		world.Label("concurrent/" + strings.TrimPrefix(sig, "C20/concurrent/"))
+		// the schedule is not an input, so rapid may be unable to reproduce the failure:
+		// the first one of a process is printed right away with the whole workload
+		printOnce.Do(func() { fmt.Printf("VERIF-HISTORY sig=%s :: %s\n", sig, msg) })
+		world.Fail(t, sig, "%s", msg)
+	}
+	registry := func(what string, got []string) {
+		d := diff(want, got)
+		if len(d) == 0 {
+			return
+		}
+		sig := "C20/concurrent/foreign-value"
+		if staleOnly(x, got) {
+			sig = sigLostUpdate
+		}
+		fail(sig, fmt.Sprintf("%s: after all goroutines were joined %s differs from the operations applied per entity (- missing, + unexpected):\n%s\n workload:\n%s\n expected registry:\n%s\n actual registry:\n%s",
+			where, what, block(d), wl, block(want), block(got)))
+	}
+	registry("DataCopy(nodeManagementUseCaseData)", obs.stored)
+	if obs.peerProb != "" {
+		fail("C20/concurrent/peer-read", fmt.Sprintf("%s: read of nodeManagementUseCaseData after the join: %s\n workload:\n%s", where, obs.peerProb, wl))
+	}
+	registry("the reply to a peer's read of nodeManagementUseCaseData", obs.peer)
+	// the final registry is as expected; a Has answer that deviates in between saw a registry
+	// in which an update of its own entity was (temporarily) lost
+	for i := range wl.Lists {
+		if fmt.Sprint(obs.has[i]) == fmt.Sprint(x.has[i]) {
+			continue
+		}
+		sig := sigLostUpdate
+		for j, h := range obs.has[i] {
+			if j >= len(x.hasMay[i]) || (h && !x.hasMay[i][j][1]) || (!h && !x.hasMay[i][j][0]) {
+				sig = "C20/concurrent/has-foreign-answer"
+			}
+		}
+		fail(sig, fmt.Sprintf("%s: goroutine %d got the HasUseCaseSupport answers %v, its own operations imply %v (no other goroutine touches entity %s)\n workload:\n%s",
+			where, i, obs.has[i], x.has[i], entName(i), wl))
+	}
+}
+
 func TestUseCaseConcurrent(t *testing.T) {
 	rounds := world.EnvInt("VERIF_C20_ROUNDS", 20)
+	world.SetExtra("concurrent_gomaxprocs", runtime.GOMAXPROCS(0))
 	rapid.Check(t, world.Prop(func(t *rapid.T) {
 		wl := genWorkload(t)
 		x := expect(wl)
-		want := x.final.lines()
 
 		var keys []string
 		for _, o := range wl.Prefill {
@@ -312,51 +357,58 @@ func TestUseCaseConcurrent(t *testing.T) {
 		nt := x.changing >= 2
 		world.Record(world.Hash(keys), nt, fmt.Sprintf("goroutines/%d", len(wl.Lists)), fmt.Sprintf("changing-goroutines/%d", x.changing))
 		if nt && world.WantSample() {
-			world.Sample(map[string]any{"kind": "concurrent", "workload": strings.Split(wl.String(), "\n"), "expected": want})
+			world.Sample(map[string]any{"kind": "concurrent", "workload": strings.Split(wl.String(), "\n"), "expected": x.final.lines()})
 		}
 
+		// the same workload several times: every round is another schedule
 		for r := 0; r < rounds; r++ {
 			obs := round(wl)
 			world.AddExtra("concurrent_rounds", 1)
-
-			fail := func(what string, got []string) {
-				d := diff(want, got)
-				sig := "C20/concurrent/foreign-value"
-				if staleOnly(x, got) {
-					sig = sigLostUpdate
-				}
-				world.Label("concurrent/" + strings.TrimPrefix(sig, "C20/concurrent/"))
-				msg := fmt.Sprintf("round %d of %d: after all goroutines were joined %s differs from the operations applied per entity (- missing, + unexpected):\n%s\n workload:\n%s\n expected registry:\n%s\n actual registry:\n%s",
-					r+1, rounds, what, block(d), wl, block(want), block(got))
-				printOnce.Do(func() { fmt.Printf("VERIF-HISTORY sig=%s :: %s\n", sig, msg) })
-				world.Fail(t, sig, "%s", msg)
-			}
-			if len(diff(want, obs.stored)) > 0 {
-				fail("DataCopy(nodeManagementUseCaseData)", obs.stored)
-			}
-			if obs.peerProb != "" {
-				world.Fail(t, "C20/concurrent/peer-read", "round %d: read of nodeManagementUseCaseData after the join: %s\n workload:\n%s", r+1, obs.peerProb, wl)
-			}
-			if len(diff(want, obs.peer)) > 0 {
-				fail("the reply to a peer's read of nodeManagementUseCaseData", obs.peer)
-			}
-			// the final registry is as expected; a Has answer that deviates in between saw a
-			// registry in which an update of its own entity was (temporarily) lost
-			for i := range wl.Lists {
-				if fmt.Sprint(obs.has[i]) != fmt.Sprint(x.has[i]) {
-					sig := sigLostUpdate
-					for j, h := range obs.has[i] {
-						if j >= len(x.hasMay[i]) || (h && !x.hasMay[i][j][1]) || (!h && !x.hasMay[i][j][0]) {
-							sig = "C20/concurrent/has-foreign-answer"
-						}
-					}
-					world.Label("concurrent/seen-by-has/" + strings.TrimPrefix(sig, "C20/concurrent/"))
-					msg := fmt.Sprintf("round %d of %d: goroutine %d got the HasUseCaseSupport answers %v, its own operations imply %v (no other goroutine touches entity %s)\n workload:\n%s",
-						r+1, rounds, i, obs.has[i], x.has[i], entName(i), wl)
-					printOnce.Do(func() { fmt.Printf("VERIF-HISTORY sig=%s :: %s\n", sig, msg) })
-					world.Fail(t, sig, "%s", msg)
-				}
-			}
+			judge(t, wl, x, obs, fmt.Sprintf("round %d of %d", r+1, rounds))
 		}
 	}))
+}
+
+// TestUseCaseConcurrentPairs is the smallest concurrent shape, free-running: [1] and [1 1] hold
+// two use cases each, then one operation on [1] races one operation on [1 1], for every pair of
+// operation kinds ([2] only asks Has). The controlled-interleaving check enumerates the same
+// pairs through the yield points; this one needs no build tag and is the seconds-long replay of
+// a lost update.
+func TestUseCaseConcurrentPairs(t *testing.T) {
+	rounds := world.EnvInt("VERIF_C20_PAIR_ROUNDS", 100)
+	const a, b = 0, 2 // entity slots [1] and [1 1]
+	mk := func(kind string, ent int) op {
+		o := op{Kind: kind, Ent: ent, Actor: 0, Name: 0}
+		switch kind {
+		case opAdd:
+			o.Actor, o.Name, o.Version, o.SubRev, o.Avail, o.Scen = 1, 2, "1.1.0", "release", true, []uint{1, 2}
+		case opSetAvail:
+			o.Avail = false
+		}
+		return o
+	}
+	kinds := []string{opAdd, opRemove, opSetAvail, opRemoveAll}
+	for _, ka := range kinds {
+		for _, kb := range kinds {
+			wl := workload{Lists: make([][]op, 3)}
+			for _, e := range []int{a, b} {
+				wl.Prefill = append(wl.Prefill,
+					op{Kind: opAdd, Ent: e, Actor: 0, Name: 0, Version: "1.0.0", SubRev: "release", Avail: true, Scen: []uint{1}},
+					op{Kind: opAdd, Ent: e, Actor: 0, Name: 1, Version: "1.0.0", SubRev: "release", Avail: true, Scen: []uint{1, 2, 3}})
+			}
+			wl.Lists[a] = []op{mk(ka, a)}
+			wl.Lists[1] = []op{{Kind: opHas, Ent: 1}}
+			wl.Lists[b] = []op{mk(kb, b)}
+			x := expect(wl)
+			world.Record(world.Hash("pair", ka, kb), true, "pair/"+ka+"+"+kb)
+			// a known finding ends this pair only
+			world.Guard(func() {
+				for r := 0; r < rounds; r++ {
+					obs := round(wl)
+					world.AddExtra("pair_rounds", 1)
+					judge(t, wl, x, obs, fmt.Sprintf("pair %s + %s, round %d of %d", ka, kb, r+1, rounds))
+				}
+			})
+		}
+	}
 }
